@@ -62,7 +62,9 @@ func (t *T0x0801) Encode() []byte {
 }
 
 func (t *T0x0801) ReplyBody(jtMsg *jt808.JTMessage) ([]byte, error) {
-	_ = t.Parse(jtMsg)
+	if err := t.Parse(jtMsg); err != nil {
+		return nil, err
+	}
 	p8800 := P0x8800{
 		MultimediaID: t.MultimediaID, // 直接全部完成 不补包
 	}
